@@ -58,7 +58,10 @@ def gen_piece(rng: random.Random, enc: str, w: int, h: int, clean: bool, bright:
     n = lambda hi: rng.choice([1, 1, 2, 3, hi, hi + 1, rng.randint(1, max(1, hi))])  # noqa: E731
     if r < 0.30:
         k = rng.choice([1, 2, 3, w - 1, w, w + 1, 2 * w + 1])
-        txt = "".join(chr(rng.randrange(0x21, 0x7F)) if rng.random() < 0.85 else " " for _ in range(max(1, k)))
+        # in UTF-8 mode some of the printable characters are two- and three-byte, single-width ones, so that
+        # chunk boundaries and resizes land inside a character (double-width text stays outside the subset)
+        multi = "éüßñøλж€" if enc == "utf8" and rng.random() < 0.3 else ""
+        txt = "".join((rng.choice(multi) if multi and rng.random() < 0.4 else chr(rng.randrange(0x21, 0x7F))) if rng.random() < 0.85 else " " for _ in range(max(1, k)))
         return txt.encode(), True, "text"
     if r < 0.38:
         return rng.choice([b"\r", b"\n", b"\r\n", b"\b", b"\n\n"]), True, "c0"
